@@ -1,6 +1,6 @@
 use std::{
     borrow::Cow,
-    path::{Path, PathBuf},
+    path::{Component, Path, PathBuf},
     sync::Arc,
 };
 
@@ -96,7 +96,12 @@ impl Import {
     pub fn path_from_parts(user_data: &AssocFileData, str_part: &str) -> Result<PathBuf> {
         let src: &str = &user_data.get_source_file_name();
         let path = Path::new(src);
-        let attempted_path = Path::new(str_part);
+        // `common` and `./common` name one module, and the path is the module's identity:
+        // a `.` in the import is dropped instead of being kept as spelled.
+        let attempted_path: PathBuf = Path::new(str_part)
+            .components()
+            .filter(|component| *component != Component::CurDir)
+            .collect();
         let path = path.parent().context("no parent")?.join(attempted_path);
         Ok(path)
     }
